@@ -94,6 +94,10 @@ struct Case {
     /// serializer options (None = defaults)
     #[serde(default)]
     opts: Option<SerOpts>,
+    /// read back the text a person would write: the `&name` of every node that is never
+    /// referenced by an alias is removed from the emitted text before it is deserialised
+    #[serde(default)]
+    strip: bool,
 }
 
 // ------------------------------------------------------------------------------------------
@@ -126,6 +130,26 @@ struct Model {
     dangling_in_map: usize,
     /// `up: Option<link>` fields whose target is still open
     open_up: usize,
+    /// class of the wrapper node inside which a class is first met (None: directly in the unwrapped root)
+    class_parent: Vec<Option<usize>>,
+}
+impl Model {
+    /// a wrapper that no alias refers to sits inside a wrapper node that aliases do refer to
+    fn unshared_inside_shared(&self) -> bool {
+        (0..self.classes).any(|k| {
+            if self.class_sizes[k] != 1 {
+                return false;
+            }
+            let mut a = self.class_parent[k];
+            while let Some(x) = a {
+                if self.class_sizes[x] >= 2 {
+                    return true;
+                }
+                a = self.class_parent[x];
+            }
+            false
+        })
+    }
 }
 
 struct Sim<'a> {
@@ -142,6 +166,8 @@ impl<'a> Sim<'a> {
         let k = self.m.classes;
         self.m.classes += 1;
         self.m.class_sizes.push(1);
+        let enclosing = self.path.iter().rev().find_map(|&i| self.node_class[i]);
+        self.m.class_parent.push(enclosing);
         self.m.occ.push((kind, k as i32));
         self.m.tokens.push(format!("&a{}", k + 1));
         k
@@ -290,6 +316,7 @@ fn simulate(c: &Case) -> Result<Model, &'static str> {
             dangling: 0,
             dangling_in_map: 0,
             open_up: 0,
+            class_parent: vec![],
         },
     };
     if c.root_wrapped {
@@ -511,11 +538,49 @@ fn compare(before: &Canon, after: &Canon, text: &str) -> Result<(), String> {
     Ok(())
 }
 
-fn to_text<T: Serialize>(v: &T, o: &Option<SerOpts>) -> Result<String, serde_saphyr::ser::Error> {
-    match o {
-        None => serde_saphyr::to_string(v),
-        Some(o) => serde_saphyr::to_string_with_options(v, o.build()),
+/// a String that refuses to grow beyond a limit, so that a serializer which writes a cyclic graph
+/// over and over ends with an error (a verdict) instead of exhausting memory or stack
+struct Bounded {
+    s: String,
+    limit: usize,
+}
+impl std::fmt::Write for Bounded {
+    fn write_str(&mut self, x: &str) -> std::fmt::Result {
+        if self.s.len() + x.len() > self.limit {
+            return Err(std::fmt::Error);
+        }
+        self.s.push_str(x);
+        Ok(())
     }
+}
+
+/// `to_string` / `to_string_with_options` (which are `to_fmt_writer*` on a String) with a 1 MiB cap;
+/// the largest legitimate text of this generator is below 300 KiB
+fn to_text<T: Serialize>(v: &T, o: &Option<SerOpts>) -> Result<String, serde_saphyr::ser::Error> {
+    let mut w = Bounded { s: String::new(), limit: 1 << 20 };
+    match o {
+        None => serde_saphyr::to_fmt_writer(&mut w, v)?,
+        Some(o) => serde_saphyr::to_fmt_writer_with_options(&mut w, v, o.build())?,
+    }
+    Ok(w.s)
+}
+
+/// the text with the definitions of never-referenced anchors removed (same YAML meaning)
+fn strip_unreferenced(text: &str, m: &Model) -> String {
+    let mut t = text.to_string();
+    for (k, &size) in m.class_sizes.iter().enumerate() {
+        if size != 1 {
+            continue;
+        }
+        for name in [format!("&a{}", k + 1), format!("&n{}x", k + 1)] {
+            for (pat, with) in [(format!("{name} "), ""), (format!("{name}\n"), "\n")] {
+                if let Some(i) = t.find(&pat) {
+                    t.replace_range(i..i + pat.len(), with);
+                }
+            }
+        }
+    }
+    t
 }
 
 fn check_model(before: &Canon, m: &Model) -> Result<(), String> {
@@ -762,6 +827,8 @@ macro_rules! dag_family {
                 };
                 let text = ser(&root, &wrapped).map_err(|e| format!("serialization failed: {e}"))?;
                 check_text(&text, m)?;
+                let original = text;
+                let text = if c.strip { strip_unreferenced(&original, m) } else { original.clone() };
                 let rej = |e: serde_saphyr::Error| {
                     format!("emitted text is rejected: {} (emitted {:?})", e.without_snippet(), text)
                 };
@@ -774,8 +841,8 @@ macro_rules! dag_family {
                 compare(&before, &after, &text)?;
                 // second generation: the restored graph serialises to the same text
                 let text2 = ser(&root2, &wrapped2).map_err(|e| format!("serialization of the restored graph failed: {e}"))?;
-                if text2 != text {
-                    return Err(format!("restored graph serialises differently: {:?} vs {:?}", text2, text));
+                if text2 != original {
+                    return Err(format!("restored graph serialises differently: {:?} vs {:?}", text2, original));
                 }
                 // plain mirror: "Aliases read into plain (non-wrapper) fields still give equal,
                 // independent copies" (property text)
@@ -793,7 +860,7 @@ macro_rules! dag_family {
                     // mixed mirror: plain nodes, wrapper leaves.  README: "A field or structure
                     // that is defined once and subsequently referenced will exist as a single
                     // instance in memory, with all anchor fields pointing to it."
-                    if !c.leaves.is_empty() {
+                    if !c.leaves.is_empty() && !c.strip {
                         let mixed = serde_saphyr::from_str::<MNode>(&text).map_err(|e| {
                             format!("mixed mirror: emitted text is rejected: {} (emitted {:?})", e.without_snippet(), text)
                         })?;
@@ -849,6 +916,8 @@ impl<T> Slot<T> for Mutex<Option<T>> {
     }
 }
 
+static STUCK: std::sync::atomic::AtomicUsize = std::sync::atomic::AtomicUsize::new(0);
+
 /// serialise in place
 macro_rules! ser_direct {
     ($f:ident, $root:ident, $wrapped:ident, $opts:expr) => {
@@ -860,6 +929,10 @@ macro_rules! ser_direct {
 /// never return; that must become a verdict, not a hung worker
 macro_rules! ser_guarded {
     ($f:ident, $root:ident, $wrapped:ident, $opts:expr) => {{
+        // once a few serialisations have hung in this process, do not wait for more of them
+        if STUCK.load(std::sync::atomic::Ordering::Relaxed) >= 4 {
+            return Err("serialisation of an ArcRecursive graph does not return (earlier cases of this run hung, not waiting again)".into());
+        }
         let (r, w, o) = ($root.clone(), $wrapped.clone(), $opts.clone());
         let (tx, rx) = std::sync::mpsc::channel();
         let spawned = std::thread::Builder::new().stack_size(64 << 20).spawn(move || {
@@ -868,10 +941,11 @@ macro_rules! ser_guarded {
         if spawned.is_err() {
             return Err("cannot spawn the serialisation thread".into());
         }
-        match rx.recv_timeout(std::time::Duration::from_secs(60)) {
+        match rx.recv_timeout(std::time::Duration::from_secs(20)) {
             Ok(x) => x,
             Err(_) => {
-                return Err("serialisation of an ArcRecursive graph does not return within 60 s (a mutex locked twice?)".into())
+                STUCK.fetch_add(1, std::sync::atomic::Ordering::Relaxed);
+                return Err("serialisation of an ArcRecursive graph does not return within 20 s (a mutex locked twice?)".into());
             }
         }
     }};
@@ -1131,6 +1205,8 @@ macro_rules! rec_family {
                 check_model(&before, m)?;
                 let text = $ser!(ser_fn, root, wrapped, c.opts).map_err(|e| format!("serialization failed: {e}"))?;
                 check_text(&text, m)?;
+                let original = text;
+                let text = if c.strip { strip_unreferenced(&original, m) } else { original.clone() };
                 let rej = |e: serde_saphyr::Error| {
                     format!("emitted text is rejected: {} (emitted {:?})", e.without_snippet(), text)
                 };
@@ -1142,8 +1218,8 @@ macro_rules! rec_family {
                 let after = canon(&root2, &wrapped2);
                 compare(&before, &after, &text)?;
                 let text2 = $ser!(ser_fn, root2, wrapped2, c.opts).map_err(|e| format!("serialization of the restored graph failed: {e}"))?;
-                if text2 != text {
-                    return Err(format!("restored graph serialises differently: {:?} vs {:?}", text2, text));
+                if text2 != original {
+                    return Err(format!("restored graph serialises differently: {:?} vs {:?}", text2, original));
                 }
                 Ok(())
             }
@@ -1285,6 +1361,9 @@ fn features(c: &Case, m: &Model) -> Vec<String> {
     if c.opts.is_some() {
         f.push("non-default serializer options".into());
     }
+    if c.strip {
+        f.push("unreferenced anchors removed from the text".into());
+    }
     if c.kind.is_rec() {
         for d in &c.nodes {
             for w in &d.weak {
@@ -1359,6 +1438,7 @@ struct RawGraph {
     leaf_of: Vec<(u16, u16)>,
     root_wrapped: bool,
     opts: Option<SerOpts>,
+    strip: bool,
 }
 
 fn assemble(kind: Kind, max_alloc: usize, r: RawGraph) -> Case {
@@ -1419,10 +1499,10 @@ fn assemble(kind: Kind, max_alloc: usize, r: RawGraph) -> Case {
         };
         nodes[s].weak.push(WeakE { to, pos });
     }
-    normalise(Case { kind, nodes, leaves, root_wrapped: r.root_wrapped, opts: r.opts })
+    normalise(Case { kind, nodes, leaves, root_wrapped: r.root_wrapped, opts: r.opts, strip: r.strip })
 }
 
-fn random_graph(kind: Kind, p_share: f64, max_alloc: usize, max_strong: usize, max_weak: usize) -> impl Strategy<Value = Case> {
+fn random_graph(kind: Kind, p_share: f64, max_alloc: usize, max_strong: usize, max_weak: usize, strip: bool) -> impl Strategy<Value = Case> {
     (
         prop::collection::vec(
             (any::<u16>(), any::<u16>(), prop::bool::weighted(p_share.clamp(0.001, 0.999)), 0u8..3, 0u32..4),
@@ -1441,7 +1521,7 @@ fn random_graph(kind: Kind, p_share: f64, max_alloc: usize, max_strong: usize, m
         ],
     )
         .prop_map(move |(strong, weak, leaves, leaf_of, root_wrapped, opts)| {
-            assemble(kind, max_alloc, RawGraph { strong, weak, leaves, leaf_of, root_wrapped, opts })
+            assemble(kind, max_alloc, RawGraph { strong, weak, leaves, leaf_of, root_wrapped, opts, strip })
         })
 }
 
@@ -1491,13 +1571,14 @@ impl Property for C14 {
     const ID: &'static str = "C14";
     type Case = Case;
     fn rule() -> String {
-        "cases = descriptions of object graphs: allocations with payload ids (deliberately repeated across distinct allocations), strong child edges forming a DAG, shared String leaves, weak edges to live and to dropped targets, every occurrence placed as sequence item / map value / field of a nested struct, Rc or Arc family, DAG wrappers (RcAnchor/RcWeakAnchor, ArcAnchor/ArcWeakAnchor) or recursive wrappers (RcRecursive/RcRecursion, ArcRecursive/ArcRecursion) with links to open nodes (self loop, parent pointer, longer rings), optionally a wrapper as document root. Exhaustive: every strong DAG shape with <= 4 allocations (edge multiplicity 0/1/2 for every ordered pair incl. the root), each in 4 variants (Rc, Arc, with weak edges + shared leaves, recursive with links) with rotating positions; for <= 2 allocations additionally every subset of weak edges, for 3 allocations every single weak edge. Random: graphs with <= 10 allocations and <= 25 strong occurrences, sharing probability swept over 0 .. 1. Oracle: partition of all wrapper occurrences in traversal order by pointer equality, payloads, weak upgrade classes / dangling, strong counts and (recursive kinds) the id sequence met by following the first weak link are equal before and after from_str(to_string(g)); the emitted text carries exactly the predicted &aN / *aN tokens (each class defined once, every other occurrence an alias); the restored graph serialises to the same text; the text read into plain mirror types equals the tree expansion computed from the description, and read into plain nodes with wrapper leaves the leaves are shared exactly as the leaf allocations are. Non-trivial: a pointer class with >= 2 occurrences, a weak edge, or a cycle. distinct = distinct descriptions.".into()
+        "cases = descriptions of object graphs: allocations with payload ids (deliberately repeated across distinct allocations), strong child edges forming a DAG, shared String leaves, weak edges to live and to dropped targets, every occurrence placed as sequence item / map value / field of a nested struct, Rc or Arc family, DAG wrappers (RcAnchor/RcWeakAnchor, ArcAnchor/ArcWeakAnchor) or recursive wrappers (RcRecursive/RcRecursion, ArcRecursive/ArcRecursion) with links to open nodes (self loop, parent pointer, longer rings), optionally a wrapper as document root. Exhaustive: every strong DAG shape with <= 4 allocations (edge multiplicity 0/1/2 for every ordered pair incl. the root), each in 4 variants (Rc, Arc, with weak edges + shared leaves, recursive with links) with rotating positions; for <= 2 allocations additionally every subset of weak edges, for 3 allocations every single weak edge. Random: graphs with <= 10 allocations and <= 25 strong occurrences, sharing probability swept over 0 .. 1, 40% of them under non-default serializer options (indentation 3/4/8, quote_all, yaml_12, prefer_block_scalars off, tagged_enums, custom anchor names); a further family is read back from the text a person would write, i.e. after the definitions of never-referenced anchors have been removed from the emitted text. Oracle: partition of all wrapper occurrences in traversal order by pointer equality, payloads, weak upgrade classes / dangling, strong counts and (recursive kinds) the id sequence met by following the first weak link are equal before and after from_str(to_string(g)); the emitted text carries exactly the predicted &aN / *aN tokens (each class defined once, every other occurrence an alias); the restored graph serialises to the same text; the text read into plain mirror types equals the tree expansion computed from the description, and read into plain nodes with wrapper leaves the leaves are shared exactly as the leaf allocations are. Non-trivial: a pointer class with >= 2 occurrences, a weak edge, or a cycle. distinct = distinct descriptions.".into()
     }
     fn assumptions() -> Vec<String> {
         vec![
             "the strong occurrence of a node is serialised (completely) before its RcWeakAnchor/ArcWeakAnchor occurrences (anchors.rs module doc); RcRecursion/ArcRecursion links point to nodes whose strong occurrence has at least started".into(),
             "weak references to targets that are alive but not part of the serialised graph, dangling RcRecursion/ArcRecursion links and Option<weak wrapper> fields are not generated (their reading is not documented)".into(),
-            "default SerializerOptions / Options; anchor names a1, a2, ... as documented in ser.rs".into(),
+            "anchor names a1, a2, ... as documented in ser.rs (or those of the custom generator); compact_list_indent, empty_as_braces = false, indent_step = 1 and non-default folding thresholds are not generated (they break documents that contain no anchors at all: C13's domain); default deserializer Options".into(),
+            "removing the definition of an anchor that no alias refers to does not change the meaning of a YAML text; the mixed mirror (plain nodes, wrapper leaves) is not checked on such texts".into(),
             "the plain mirror is only checked for DAG kinds (a cyclic graph has no finite tree expansion) and expansions of <= 1500 nodes".into(),
         ]
     }
@@ -1538,6 +1619,9 @@ impl Property for C14 {
         {
             v.push("anchored_block_scalar");
         }
+        if c.strip && simulate(c).map(|m| m.unshared_inside_shared()).unwrap_or(false) {
+            v.push("unanchored_wrapper_inside_anchored_wrapper");
+        }
         if c.kind.is_rec() && simulate(c).map(|m| m.open_up > 0).unwrap_or(false) {
             v.push("option_link_to_open_node");
         }
@@ -1568,6 +1652,9 @@ impl Property for C14 {
         }
         if c.opts.is_some() {
             out.insert(0, Case { opts: None, ..c.clone() });
+        }
+        if c.strip {
+            out.push(Case { strip: false, ..c.clone() });
         }
         if c.root_wrapped {
             out.push(Case { root_wrapped: false, ..c.clone() });
@@ -1623,6 +1710,7 @@ impl Property for C14 {
             leaves: vec![],
             root_wrapped: false,
             opts: None,
+            strip: false,
         };
         let m = simulate(&ok).map_err(|e| format!("model rejects a valid graph: {e}"))?;
         if m.tokens != ["&a1", "*a1", "*a1"] {
@@ -1674,9 +1762,19 @@ impl Property for C14 {
                     for (i, d) in ns.iter_mut().enumerate() {
                         d.id = ((i as u64 + code) % 2) as u32;
                     }
-                    let c = Case { kind, nodes: ns, leaves: vec![], root_wrapped: false, opts: None };
+                    let c = Case { kind, nodes: ns, leaves: vec![], root_wrapped: false, opts: None, strip: false };
                     let nt = note(&c);
                     ctx.case("shapes-dag", &c, nt);
+                }
+                // variant a': the same graphs read back from the text with minimal anchors
+                if n <= 3 {
+                    for (v, kind) in [(0u64, Kind::RcDag), (1, Kind::ArcDag), (2, Kind::RcRec), (3, Kind::ArcRec)] {
+                        let mut ns = nodes.clone();
+                        rotate_positions(&mut ns, code * 3 + v);
+                        let c = Case { kind, nodes: ns, leaves: vec![], root_wrapped: false, opts: None, strip: true };
+                        let nt = note(&c);
+                        ctx.case("shapes-minimal-anchors", &c, nt);
+                    }
                 }
                 // variant c: weak edges and shared leaves
                 {
@@ -1701,6 +1799,7 @@ impl Property for C14 {
                         leaves: vec!["leaf".into(), if code % 5 == 0 { "leaf".into() } else { "other".into() }],
                         root_wrapped: code % 11 == 3,
                         opts: None,
+                        strip: false,
                     });
                     let nt = note(&c);
                     ctx.case("shapes-dag-weak-leaves", &c, nt);
@@ -1722,7 +1821,7 @@ impl Property for C14 {
                             d.weak.push(WeakE { to: Some(i), pos: WPos::Seq });
                         }
                     }
-                    let c = normalise(Case { kind, nodes: ns, leaves: vec![], root_wrapped, opts: None });
+                    let c = normalise(Case { kind, nodes: ns, leaves: vec![], root_wrapped, opts: None, strip: false });
                     let nt = note(&c);
                     ctx.case("shapes-rec-links", &c, nt);
                 }
@@ -1759,7 +1858,7 @@ impl Property for C14 {
                             }
                         }
                         let before: usize = ns.iter().map(|d| d.weak.len()).sum();
-                        let c = normalise(Case { kind, nodes: ns, leaves: vec![], root_wrapped: false, opts: None });
+                        let c = normalise(Case { kind, nodes: ns, leaves: vec![], root_wrapped: false, opts: None, strip: false });
                         let after: usize = c.nodes.iter().map(|d| d.weak.len()).sum();
                         if after != before {
                             // subsets containing an edge outside the documented domain collapse onto a smaller subset
@@ -1798,7 +1897,7 @@ impl Property for C14 {
                                 (t, _) => (Some(t), false),
                             };
                             ns[i].weak.push(WeakE { to, pos });
-                            let c = Case { kind, nodes: ns, leaves: vec![], root_wrapped, opts: None };
+                            let c = Case { kind, nodes: ns, leaves: vec![], root_wrapped, opts: None, strip: false };
                             if simulate(&c).is_err() {
                                 ctx.class("single weak edge outside the domain (skipped)");
                                 continue;
@@ -1817,25 +1916,33 @@ impl Property for C14 {
         let mut stream = 1;
         for &p in &[0.0, 0.1, 0.25, 0.5, 0.75, 1.0] {
             for kind in [Kind::RcDag, Kind::ArcDag] {
-                let s = random_graph(kind, p, 10, 25, 8);
+                let s = random_graph(kind, p, 10, 25, 8, false);
                 ctx.run_strategy(&format!("random-dag-share-{p}"), stream, n, &s, &note);
                 stream += 1;
             }
             for kind in [Kind::RcRec, Kind::ArcRec] {
-                let s = random_graph(kind, p, 10, 25, 10);
+                let s = random_graph(kind, p, 10, 25, 10, false);
                 ctx.run_strategy(&format!("random-rec-share-{p}"), stream, n, &s, &note);
                 stream += 1;
             }
         }
         // deep chains / wide fans: small allocation count, many occurrences
         for kind in [Kind::RcDag, Kind::ArcDag, Kind::RcRec, Kind::ArcRec] {
-            let s = random_graph(kind, 0.9, 4, 25, 6);
+            let s = random_graph(kind, 0.9, 4, 25, 6, false);
             ctx.run_strategy("random-dense-few-allocations", stream, n, &s, &note);
             stream += 1;
         }
+        // the text as a person would write it: anchors only where an alias refers to them
+        for kind in [Kind::RcDag, Kind::ArcDag, Kind::RcRec, Kind::ArcRec] {
+            for &p in &[0.1, 0.6] {
+                let s = random_graph(kind, p, 8, 16, 6, true);
+                ctx.run_strategy("random-minimal-anchors", stream, n, &s, &note);
+                stream += 1;
+            }
+        }
         if thorough {
             for kind in [Kind::RcDag, Kind::ArcDag, Kind::RcRec, Kind::ArcRec] {
-                let s = random_graph(kind, 0.5, 24, 60, 20);
+                let s = random_graph(kind, 0.5, 24, 60, 20, false);
                 ctx.run_strategy("random-large", stream, 8_000, &s, &note);
                 stream += 1;
             }
